@@ -15,6 +15,7 @@ R2.7  the cycle tracker's enter/exit calls are balanced on every path of _parse_
       unrelated schemas into zero-field depth placeholders)                                   [typestate shared with C08]
 R2.11 the resolver's by-name registry fallback is taken only when the schema's own type agrees with the registered schema's
 R2.12 a schema that declares properties is never rendered as a TypeAlias (the alias decision is false for every such input)
+R2.16 sibling inline property schemas get distinct invented names (the parent prefix is dropped only after looking at the sibling keys)   [= R19.10]
 R2.15 writer / reader agreement on registry keys: the key a raw name is registered under is recorded, and $ref resolution / build_schemas
       find a schema through that index (no second parse of a schema whose sanitised name differs from its declared name)
 R2.14 the sanitised key a schema is registered under is tested against the declared names (it never shadows another declared schema)
@@ -117,6 +118,10 @@ def run(repo: Repo, rep: Report, tier: str) -> None:
     from rules._registry import rule_raw_name_index
 
     rule_raw_name_index(repo, rep, "R2.15")
+    # R2.16: two inline property schemas of one object never share an invented name (each property is typed with its own enum / model)   [= R19.10]
+    from rules.c19 import rule_sibling_names_are_distinct
+
+    rule_sibling_names_are_distinct(repo, rep, "R2.16")
     # ---------------------------------------------------------------- R2.2 name content
     ucd = repo.module("core.parsing.unified_cycle_detection")
     ucc = ucd.func("unified_cycle_check")
@@ -666,7 +671,48 @@ def rule_name_fallback_respects_kind(repo: Repo, rep: Report, rule: str = "R2.11
                         for g, pol in guards(cfg, nd2.id, dom):
                             if g.kind == "test" and pol is not None and "type" in norm(L.inline(g.ast, stop=tuple(L.params))):
                                 kinds = True
+            # the decision itself, evaluated: for a primitive schema the fallback is not taken whenever the two types differ
+            leak = None
             if kinds:
+                from sa.feval import Unknown, evaluate
+
+                DOM = ["string", "integer", "number", "boolean", "object", "array", None]
+                stop = tuple(L.params) + (tgt,)
+                A, B = object(), object()
+                try:
+                    for st_ in DOM[:4]:
+                        for tt_ in DOM:
+                            if st_ == tt_:
+                                continue
+                            env = {f"{p_schema}.type": st_, f"{tgt}.type": tt_, p_schema: A, tgt: B, f"{p_schema}.name": "N"}
+                            for nm_, ds_ in L.defs.items():  # locals that hold one of the two types (`schema_type = getattr(schema, "type", None)`)
+                                for _, v_, _ in ds_:
+                                    if v_ is not None and norm(v_).replace('"', "'") in (f"getattr({p_schema}, 'type', None)", f"{p_schema}.type"):
+                                        env.setdefault(nm_, st_)
+                                    if v_ is not None and norm(v_).replace('"', "'") in (f"getattr({tgt}, 'type', None)", f"{tgt}.type"):
+                                        env.setdefault(nm_, tt_)
+                            taken = True
+                            for g, pol in gs:
+                                gi = L.inline(g.ast, depth=6, stop=stop)
+                                txt = norm(gi)
+                                if not ("type" in txt and tgt in txt):
+                                    continue  # guards that do not compare the two kinds (registry membership, earlier dispatch) are assumed to hold
+                                val = bool(evaluate(gi, env))
+                                if val != pol:
+                                    taken = False
+                                    break
+                            if taken:
+                                leak = (st_, tt_)
+                                raise StopIteration
+                except StopIteration:
+                    pass
+                except Unknown:
+                    leak = None
+            if kinds and leak is not None:
+                rep.violation(rule, sub, f"{fn.fq}|name-fallback-merges-kinds|{leak[0]}|{leak[1]}",
+                              f"an inline `{leak[0]}` schema whose name (the property key) equals a registered `{leak[1]}` schema is replaced by that schema: the two kinds are "
+                              f"treated as one, the field is typed with the registered model and a conforming `{leak[0]}` value is converted (1.5 -> 1) or rejected", fn.loc(c))
+            elif kinds:
                 rep.ok(rule, sub, "taken only when the schema's own type and the registered schema's type agree", fn.loc(c))
             else:
                 rep.violation(rule, sub, f"{fn.fq}|name-fallback-ignores-kind",
